@@ -54,8 +54,8 @@ Theorem sendflow_clear_queue st sid st' outs :
 Proof.
   unfold clear_queue. destruct (find_s sid (c_strs st)) as [s|] eqn:Ef; [|discriminate].
   intros H; inversion H; subst; clear H. pose proof (find_s_id _ _ _ Ef) as Hid.
-  exists s. eexists. split; [reflexivity|]. cbn [c_strs put set_strs].
-  split; [|split; reflexivity].
   set (s' := set_req (set_bufq s 0 []) 0).
+  exists s, s'. split; [reflexivity|]. cbn [c_strs put set_strs].
+  split; [|split; reflexivity].
   replace sid with (s_id s') by (cbn; exact Hid). apply (find_upd_same s' _ s). cbn [s_id s' set_req set_bufq]. rewrite Hid. exact Ef.
 Qed.
